@@ -145,6 +145,15 @@ def programs(tier):
             d2.append(("bin", op1, ("un", "-", x), ("bin", op2, y, ("elem",))) if False else ("bin", op1, ("un", "-", x), y))
             d2.append(("bin", op1, ("call", "f1", [x]), ("un", "-", z)))
     out += d2
+    # literal chains with numbers that are not dyadic fractions: a tree that regroups the constants
+    # (a + (c1 + c2)) differs from the text's grouping ((a + c1) + c2) even over the reals, because
+    # c1 + c2 is rounded once when it is computed on floats
+    for op1 in ("+", "-", "*", "/"):
+        for op2 in ("+", "-", "*", "/"):
+            for x in (("var", "a"), ("elem",)):
+                out.append(("bin", op2, ("bin", op1, x, ("num", "0.1")), ("num", "0.2")))
+            out.append(("bin", op2, ("bin", op1, ("num", "0.1"), ("var", "a")), ("num", "0.7")))
+    out.append(("call", "f1", [("bin", "+", ("bin", "+", ("var", "b.c"), ("num", "1e16")), ("un", "-", ("num", "1e16")))]))
     out += [("un", "-", ("un", "-", ("var", "a"))), ("un", "+", ("un", "-", ("num", "1e3"))),
             ("bin", "^", ("num", "2"), ("un", "-", ("num", "2"))), ("bin", "+", ("un", "+", ("num", "1")), ("bin", "^", ("num", "2"), ("un", "-", ("num", "2")))),
             ("call", "f2", [("bin", "+", ("var", "a"), ("num", "1")), ("call", "f1", [("elem",)])]),
